@@ -647,6 +647,77 @@ func propC11(c *Ctx) string {
 		}
 	}
 
+	c11Replay(c, retained, tq)
+
+	// WILL
+	rw := c.Rule("C11/WILL", "TRACE", "the will is handed to Backend.Publish as stored (same path as a publish; retain flag intact)", 1)
+	cl := c.P.ByObj[v.bCleanup]
+	if cl == nil {
+		rw.Undecided("broker cleanup", 0, "not found")
+	} else {
+		in := c.traces(cl)
+		h := &Interp{P: c.P, Info: cl.Pkg.TypesInfo}
+		ok, n := true, 0
+		for _, t := range in.Traces {
+			for _, e := range t.Ev {
+				if callTo(v.bkPublish)(e) {
+					n++
+					if h.objOf(e.Call.Args[1]) != v.fWill {
+						ok = false
+					}
+				}
+				if e.Kind == EvAssign && (e.LObj == mf.msgRetain || e.LObj == mf.msgQOS || e.LObj == mf.msgTopic || e.LObj == mf.msgPayload) {
+					ok = false
+				}
+			}
+		}
+		rw.Check(cl.Name+":Publish(c.will)", ok && n > 0, cl.Decl.Pos(), len(in.Traces), "the will must be published exactly as supplied at connect")
+	}
+	// SEARCH table (inherits C04)
+	c04Table(c, "C11/SEARCH", "topic.(*Tree).search", searchRef, nil)
+	c06CapForC11(c)
+	// the retained set is cleared with Empty: pruning must not take values or sub-topics with it; and a will
+	// counts as a publish only if it is stored whenever the CONNECT carries one
+	c05Prune(c, "C11/PRUNE")
+	c12Writers(c, v)
+	c.NotDecide("the retained set after arbitrary histories (equality with the last-writer model)", "QoS capping values at runtime (table decided in C06/CAP)", "offline persistent subscribers receiving retained messages published while offline (they receive them as live messages with the flag cleared)")
+	c.Assume("topic.Tree.Set replaces, Empty removes (C05)", "instance-insensitive field keys")
+	return c11Explanation
+}
+
+// the temporary queue is capped as well: Dequeue returns applyQOS for both queues.
+func c06CapForC11(c *Ctx) {
+	r := c.Rule("C11/CAP", "TRACE", "messages replayed through the temporary queue leave Dequeue through applyQOS (same QoS capping as live deliveries)", 1)
+	fi := c.mustFunc(r, "broker.(*MemoryBackend).Dequeue")
+	ap := c.P.Func("broker.(*memorySession).applyQOS")
+	if fi == nil || ap == nil {
+		return
+	}
+	_, tq, _, _, _, _, _, _ := backendVocab(c)
+	in := c.traces(fi)
+	h := &Interp{P: c.P, Info: fi.Pkg.TypesInfo}
+	ok, n := true, 0
+	for _, t := range in.Traces {
+		ri := t.first(recvOn(tq))
+		if ri < 0 || t.Exit != ExitReturn || len(t.Results) != 3 {
+			continue
+		}
+		n++
+		call, isCall := ast.Unparen(t.Results[0]).(*ast.CallExpr)
+		if !isCall {
+			ok = false
+			continue
+		}
+		if f, _ := h.callee(&state{env: newEnv()}, call).(*types.Func); f != ap.Obj {
+			ok = false
+		}
+	}
+	r.Check(fi.Name+":temporaryQueue→applyQOS", ok && n > 0, fi.Decl.Pos(), len(in.Traces), "retained replays must be QoS-capped like live deliveries")
+}
+
+// c11Replay: retained replay on subscribe (also inherited by C14: a subscriber must not be able to stall the
+// broker through its own retained backlog — the enqueue into its own queue under the global mutex never blocks).
+func c11Replay(c *Ctx, retained, tq *types.Var) {
 	// REPLAY
 	rr := c.Rule("C11/REPLAY", "TRACE", "Subscribe: for every requested filter retainedMessages.Search(sub.Topic); every result is sent unmodified, non-blocking, into temporaryQueue", 2)
 	sub := c.mustFunc(rr, "broker.(*MemoryBackend).Subscribe")
@@ -726,64 +797,4 @@ func propC11(c *Ctx) string {
 		c.judgeLocks(rl, res, guards, nil)
 	}
 
-	// WILL
-	rw := c.Rule("C11/WILL", "TRACE", "the will is handed to Backend.Publish as stored (same path as a publish; retain flag intact)", 1)
-	cl := c.P.ByObj[v.bCleanup]
-	if cl == nil {
-		rw.Undecided("broker cleanup", 0, "not found")
-	} else {
-		in := c.traces(cl)
-		h := &Interp{P: c.P, Info: cl.Pkg.TypesInfo}
-		ok, n := true, 0
-		for _, t := range in.Traces {
-			for _, e := range t.Ev {
-				if callTo(v.bkPublish)(e) {
-					n++
-					if h.objOf(e.Call.Args[1]) != v.fWill {
-						ok = false
-					}
-				}
-				if e.Kind == EvAssign && (e.LObj == mf.msgRetain || e.LObj == mf.msgQOS || e.LObj == mf.msgTopic || e.LObj == mf.msgPayload) {
-					ok = false
-				}
-			}
-		}
-		rw.Check(cl.Name+":Publish(c.will)", ok && n > 0, cl.Decl.Pos(), len(in.Traces), "the will must be published exactly as supplied at connect")
-	}
-	// SEARCH table (inherits C04)
-	c04Table(c, "C11/SEARCH", "topic.(*Tree).search", searchRef, nil)
-	c06CapForC11(c)
-	c.NotDecide("the retained set after arbitrary histories (equality with the last-writer model)", "QoS capping values at runtime (table decided in C06/CAP)", "offline persistent subscribers receiving retained messages published while offline (they receive them as live messages with the flag cleared)")
-	c.Assume("topic.Tree.Set replaces, Empty removes (C05)", "instance-insensitive field keys")
-	return c11Explanation
-}
-
-// the temporary queue is capped as well: Dequeue returns applyQOS for both queues.
-func c06CapForC11(c *Ctx) {
-	r := c.Rule("C11/CAP", "TRACE", "messages replayed through the temporary queue leave Dequeue through applyQOS (same QoS capping as live deliveries)", 1)
-	fi := c.mustFunc(r, "broker.(*MemoryBackend).Dequeue")
-	ap := c.P.Func("broker.(*memorySession).applyQOS")
-	if fi == nil || ap == nil {
-		return
-	}
-	_, tq, _, _, _, _, _, _ := backendVocab(c)
-	in := c.traces(fi)
-	h := &Interp{P: c.P, Info: fi.Pkg.TypesInfo}
-	ok, n := true, 0
-	for _, t := range in.Traces {
-		ri := t.first(recvOn(tq))
-		if ri < 0 || t.Exit != ExitReturn || len(t.Results) != 3 {
-			continue
-		}
-		n++
-		call, isCall := ast.Unparen(t.Results[0]).(*ast.CallExpr)
-		if !isCall {
-			ok = false
-			continue
-		}
-		if f, _ := h.callee(&state{env: newEnv()}, call).(*types.Func); f != ap.Obj {
-			ok = false
-		}
-	}
-	r.Check(fi.Name+":temporaryQueue→applyQOS", ok && n > 0, fi.Decl.Pos(), len(in.Traces), "retained replays must be QoS-capped like live deliveries")
 }
